@@ -50,8 +50,8 @@ func ParseFieldPath(fieldPath string) (*FieldAccessor, error) {
 		Parts: make([]FieldPart, 0),
 	}
 
-	// First handle basic path split by dots
-	parts := strings.Split(fieldPath, ".")
+	// First handle basic path split by dots (a dot inside ['a.b'] belongs to the key)
+	parts := splitOutsideBrackets(fieldPath)
 
 	for _, part := range parts {
 		if part == "" {
@@ -75,6 +75,31 @@ func ParseFieldPath(fieldPath string) (*FieldAccessor, error) {
 	}
 
 	return accessor, nil
+}
+
+// splitOutsideBrackets splits a field path at the dots that are not inside a [...] step
+func splitOutsideBrackets(fieldPath string) []string {
+	if !strings.Contains(fieldPath, "[") {
+		return strings.Split(fieldPath, ".")
+	}
+	var parts []string
+	depth, start := 0, 0
+	for i := 0; i < len(fieldPath); i++ {
+		switch fieldPath[i] {
+		case '[':
+			depth++
+		case ']':
+			if depth > 0 {
+				depth--
+			}
+		case '.':
+			if depth == 0 {
+				parts = append(parts, fieldPath[start:i])
+				start = i + 1
+			}
+		}
+	}
+	return append(parts, fieldPath[start:])
 }
 
 // parseComplexPart parses complex part containing index or key access
